@@ -23,6 +23,20 @@ fn interval_ns(log: i8) -> u64 {
 pub enum Mode {
     Silence,
     BetterMaster,
+    /// the better master is heard on the instance's last port (port number n) instead of port 1
+    BetterMasterLast,
+}
+impl Mode {
+    fn better(self) -> bool {
+        self != Mode::Silence
+    }
+    fn mport(self, n: usize) -> usize {
+        if self == Mode::BetterMasterLast {
+            n - 1
+        } else {
+            0
+        }
+    }
 }
 
 pub struct LiveMon {
@@ -56,6 +70,7 @@ fn continue_timed(run: &mut Run<'_>, mode: Mode, horizon: u64) -> (Vec<Emission>
     let mut next_ann = SEC / 10;
     let mut next_sync = SEC / 5;
     let mut pending_frames: Vec<(u64, usize, Vec<u8>, bool)> = vec![];
+    let mport = mode.mport(n);
     let mut guard = 0;
     loop {
         guard += 1;
@@ -77,7 +92,7 @@ fn continue_timed(run: &mut Run<'_>, mode: Mode, horizon: u64) -> (Vec<Emission>
             }
         }
         consider(next_bmca, 3, 0, 0, &mut best);
-        if mode == Mode::BetterMaster {
+        if mode.better() {
             consider(next_ann, 0, 0, 0, &mut best);
             consider(next_sync, 0, 1, 0, &mut best);
         }
@@ -93,13 +108,13 @@ fn continue_timed(run: &mut Run<'_>, mode: Mode, horizon: u64) -> (Vec<Emission>
             0 => {
                 if a == 0 {
                     next_ann += ann_iv;
-                    Ev::Ann(0, 0)
+                    Ev::Ann(mport, 0)
                 } else {
                     next_sync += sync_iv;
                     // Follow_Up follows 10 ms later
                     let s = run.peers[0].sync_seq;
-                    pending_frames.push((now + SEC / 100, 0, run.peers[0].follow_up(s, Ts::from_ns(run.cfg.rx_ns as u128 - 1000), 0), false));
-                    Ev::Sync(0, 0, true)
+                    pending_frames.push((now + SEC / 100, mport, run.peers[0].follow_up(s, Ts::from_ns(run.cfg.rx_ns as u128 - 1000), 0), false));
+                    Ev::Sync(mport, 0, true)
                 }
             }
             1 => {
@@ -135,12 +150,12 @@ fn continue_timed(run: &mut Run<'_>, mode: Mode, horizon: u64) -> (Vec<Emission>
                     }
                     if let Some(Ok(m)) = &a.decoded {
                         emissions.push((now, *p, m.hdr.msg_type));
-                        if mode == Mode::BetterMaster && *p == 0 {
+                        if mode.better() && *p == mport {
                             // the master serves delay requests
-                            let own = run.own_pid(0);
+                            let own = run.own_pid(mport);
                             match m.body {
-                                Body::DelayReq { .. } => pending_frames.push((now + SEC / 1000, 0, run.peers[0].delay_resp(m.hdr.seq, Ts::from_ns(run.cfg.tx_ns as u128 + 700), 0, &own), false)),
-                                Body::PdelayReq { .. } => pending_frames.push((now + SEC / 1000, 0, run.peers[0].pdelay_resp(m.hdr.seq, false, Ts::default(), 0, &own), true)),
+                                Body::DelayReq { .. } => pending_frames.push((now + SEC / 1000, mport, run.peers[0].delay_resp(m.hdr.seq, Ts::from_ns(run.cfg.tx_ns as u128 + 700), 0, &own), false)),
+                                Body::PdelayReq { .. } => pending_frames.push((now + SEC / 1000, mport, run.peers[0].pdelay_resp(m.hdr.seq, false, Ts::default(), 0, &own), true)),
                                 _ => {}
                             }
                         }
@@ -347,12 +362,43 @@ impl Monitor for LiveMon {
                     }
                 }
             }
-            Mode::BetterMaster => {
-                let p = 0;
-                if matches!(start[p], PS::Faulty) || run.cfg.node.ports[p].master_only {
+            Mode::BetterMaster | Mode::BetterMasterLast => {
+                let p = self.mode.mport(n);
+                let last = self.mode == Mode::BetterMasterLast;
+                if matches!(start[p], PS::Faulty) {
                     return;
                 }
-                let at = state_at(p, 5 * ann_iv + ann_iv / 2);
+                if run.cfg.node.ports[p].master_only {
+                    // a masterOnly port never follows anybody: with a steadily announcing foreign master
+                    // on its segment it is MASTER within the bound that silence has, and sends
+                    if slave_only {
+                        return;
+                    }
+                    let at = state_at(p, t1);
+                    // (a clockClass 1..127 instance that hears a better clock goes passive: figure 33)
+                    let class = run.node.inst.default_ds().clock_quality.clock_class;
+                    if (1..=127).contains(&class) && matches!(at, PS::Passive) {
+                        return;
+                    }
+                    if !matches!(at, PS::Master) {
+                        out.push(v(
+                            format!("better-master:master-only-{}-port-never-becomes-master", state_name(start[p]).to_lowercase()),
+                            format!("a foreign master announces every interval; the masterOnly port {} (initially {}) is {} after {} s instead of Master", p + 1, state_name(start[p]), state_name(at), t1 / SEC),
+                        ));
+                        return;
+                    }
+                    for (ty, name) in [(rc::ANNOUNCE, "Announce"), (rc::SYNC, "Sync")] {
+                        let cnt = em.iter().filter(|e| e.1 == p && e.2 == ty && e.0 >= t1).count();
+                        if cnt < 7 {
+                            out.push(v(format!("better-master:master-only-port-stops-sending-{name}"), format!("masterOnly port {} sent {cnt} {name} messages in the {} s after the bound", p + 1, (horizon - t1) / SEC)));
+                        }
+                    }
+                    return;
+                }
+                // (on the last port: five more intervals, in which what another port had heard of the
+                // same master before leaves its window)
+                let t_slave = if last { 10 * ann_iv + ann_iv / 2 } else { 5 * ann_iv + ann_iv / 2 };
+                let at = state_at(p, t_slave);
                 // an instance with clockClass 1..127 never becomes slave: it goes passive (IEEE 1588 figure 33)
                 let class = run.node.inst.default_ds().clock_quality.clock_class;
                 if (1..=127).contains(&class) {
@@ -367,14 +413,22 @@ impl Monitor for LiveMon {
                 if !matches!(at, PS::Slave) {
                     out.push(v(
                         format!("better-master:{}-port-not-slave-after-5-intervals", state_name(start[p]).to_lowercase()),
-                        format!("a better master announced every interval for 5.5 s; port 1 (initially {}) is {}", state_name(start[p]), state_name(at)),
+                        format!("a better master announced every interval for {:.1} intervals; port {} (initially {}) is {}", t_slave as f64 / ann_iv as f64, p + 1, state_name(start[p]), state_name(at)),
+                    ));
+                    return;
+                }
+                // ... and stays slave while the master keeps announcing
+                if let Some((ts, st)) = states.iter().find(|(ts, st)| *ts > t_slave && !matches!(st[p], PS::Slave)) {
+                    out.push(v(
+                        "better-master:slave-port-leaves-slave-state".into(),
+                        format!("a better master announces every interval; port {} was slave at {} ns and is {} at {} ns", p + 1, t_slave, state_name(st[p]), ts),
                     ));
                     return;
                 }
                 let ty = if run.cfg.node.ports[p].p2p { rc::PDELAY_REQ } else { rc::DELAY_REQ };
-                let times: Vec<u64> = em.iter().filter(|e| e.1 == p && e.2 == ty && e.0 >= 6 * ann_iv).map(|e| e.0).collect();
+                let times: Vec<u64> = em.iter().filter(|e| e.1 == p && e.2 == ty && e.0 >= t_slave + ann_iv / 2).map(|e| e.0).collect();
                 if times.len() < 3 {
-                    out.push(v("better-master:no-delay-requests".into(), format!("port 1 is slave but sent {} delay requests in {} s", times.len(), (horizon - 6 * ann_iv) / SEC)));
+                    out.push(v("better-master:no-delay-requests".into(), format!("port {} is slave but sent {} delay requests in {} s", p + 1, times.len(), (horizon - t_slave) / SEC)));
                 } else {
                     for w in times.windows(2) {
                         if w[1] - w[0] > 2 * delay_iv {
@@ -390,6 +444,7 @@ impl Monitor for LiveMon {
 
 static SILENCE: LiveMon = LiveMon { mode: Mode::Silence };
 static BETTER: LiveMon = LiveMon { mode: Mode::BetterMaster };
+static BETTER_LAST: LiveMon = LiveMon { mode: Mode::BetterMasterLast };
 
 fn defs() -> Vec<WorldDef> {
     let slave_seed = vec![Ev::Ann(0, 0), Ev::Ann(0, 0), Ev::Bmca];
@@ -427,6 +482,7 @@ fn defs() -> Vec<WorldDef> {
         WorldDef { name: "2p-e2e-far-master-slave-seed", ports: vec![(false, false), (false, false)], slave_only: false, seed: slave_seed.clone(), obedient: true, rich: false, depth: (3, 4) },
         WorldDef { name: "1p-e2e-slaveonly", ports: vec![(false, false)], slave_only: true, seed: vec![], obedient: true, rich: false, depth: (4, 6) },
         WorldDef { name: "2p-e2e", ports: vec![(false, false), (false, false)], slave_only: false, seed: vec![], obedient: true, rich: false, depth: (4, 5) },
+        WorldDef { name: "1p-e2e-masteronly", ports: vec![(false, true)], slave_only: false, seed: vec![], obedient: true, rich: false, depth: (4, 6) },
         WorldDef { name: "2p-bc-seed", ports: vec![(false, false), (true, false)], slave_only: false, seed: vec![Ev::Ann(0, 0), Ev::Ann(0, 0), Ev::T(1, Timer::Receipt), Ev::Bmca], obedient: true, rich: false, depth: (3, 4) },
     ]
 }
@@ -454,6 +510,11 @@ pub fn systems() -> Vec<(WorldSys<'static, LiveMon>, (usize, usize))> {
             s.name = format!("{}+{}", s.name, tag);
             all.push((s, d));
         }
+    }
+    // the better master on the last port of a two-port instance
+    for (mut s, d) in build("C12", &BETTER_LAST, defs().into_iter().filter(|d| d.name == "2p-e2e").collect(), false) {
+        s.name = format!("{}+better-master-on-last-port", s.name);
+        all.push((s, d));
     }
     all
 }
